@@ -930,6 +930,27 @@ def f_digitize(x, bins, right=False):
     return ndarray([one(v) for v in _flat(x)])
 
 
+def f_isclose(a, b, rtol=1e-05, atol=1e-08, equal_nan=False):
+    """numpy.isclose: |a - b| <= atol + rtol * |b| (asymmetric in b, as numpy documents); NaN is close to nothing."""
+    def one(x, y):
+        d = x - y
+        ad = ite(d >= 0, d, -d) if is_sym(d) else builtins.abs(d)
+        ay = ite(y >= 0, y, -y) if is_sym(y) else builtins.abs(y)
+        r = sbool(ad <= atol + rtol * ay)
+        nn = _or(_isnan(x), _isnan(y))
+        if equal_nan:
+            return _or(_and(_isnan(x), _isnan(y)), _and(_not(nn), r))
+        return _and(_not(nn), r)
+    if _scal(a) and _scal(b):
+        return one(a, b)
+    av, bv = _flat(a), _flat(b)
+    if _scal(a):
+        av = [a] * len(bv)
+    if _scal(b):
+        bv = [b] * len(av)
+    return ndarray([one(x, y) for x, y in zip(av, bv)])
+
+
 def f_clip(a, lo, hi):
     return _elementwise(a, lambda x: _min2(_max2(x, lo), hi))
 
